@@ -153,8 +153,11 @@ def design_line(kind, dt, fcs):
     return "flt.design %s %s %s" % (kind, fbits(dt), " ".join(fbits(v) for v in fcs))
 
 
-def compare_design(model_reply, rec):
-    """model reply `ok 5 lowpass filtfilt <wn…>` against the recorded summary; returns None if they agree"""
+def compare_design(model_reply, rec, notes=None):
+    """model reply `ok 5 lowpass filtfilt <wn…>` against the recorded summary; returns None if they agree.
+    Compared: order, btype, digital design, normalised cut-offs, and that the coefficients are applied once by a
+    forward-backward routine.  Which of filtfilt / sosfiltfilt is used, padding options and pre-processing of the signal do
+    not matter for the property (steady state away from the ends): differences there are only noted."""
     tok = model_reply.split()
     if tok[0] != "ok":
         return "model: " + model_reply
@@ -166,14 +169,21 @@ def compare_design(model_reply, rec):
         return "order"
     if rec["btype"] != m_bt:
         return "btype"
-    if rec.get("routine") != m_rt:
-        return "routine"
+    if rec.get("routine") not in ("filtfilt", "sosfiltfilt"):
+        return "routine (not one forward-backward pass: %s)" % rec.get("routine")
     if rec["analog"]:
         return "analog"
     if len(rec["wn"]) != len(m_wn) or any(abs(a - b) > 1e-14 * abs(b) for a, b in zip(rec["wn"], m_wn)):
         return "Wn"
-    if not rec.get("coeff_linked") or not rec.get("signal_linked") or not rec.get("defaults"):
-        return "application (coefficients / signal / padding defaults)"
+    if notes is not None:
+        if rec.get("routine") != m_rt:
+            notes.add("routine is %s where the model has %s (equivalent for the property)" % (rec.get("routine"), m_rt))
+        if not rec.get("coeff_linked"):
+            notes.add("coefficients handed to the routine are not the arrays returned by butter")
+        if not rec.get("signal_linked"):
+            notes.add("the routine is applied to a pre-processed copy of the signal")
+        if not rec.get("defaults"):
+            notes.add("non-default padding options of the forward-backward routine")
     return None
 
 
@@ -505,10 +515,10 @@ def run(chk):
     rng = chk.rng
     drv = core.Driver()
     lo = 0.02 if chk.quick else 0.008
-    n_sig = 240 if chk.quick else 5000
-    n_extra = 40 if chk.quick else 500
+    n_sig = 240 if chk.quick else 10000
+    n_extra = 40 if chk.quick else 1200
     n_ts = dict(plain=8, window=8, step=10, **{"window+step": 8}, array=8, taper=6, irregular=5) if chk.quick else \
-        dict(plain=80, window=80, step=120, **{"window+step": 80}, array=80, taper=50, irregular=40)
+        dict(plain=150, window=150, step=250, **{"window+step": 150}, array=150, taper=100, irregular=60)
 
     cases = [dict(c) for c in core.load_corpus("C12")]
     cases = [c for c in cases if c.get("level") in ("signal", "ts")]
@@ -576,13 +586,14 @@ def run(chk):
 
     # ---- model side ---------------------------------------------------------------------------------------------------
     outs = drv.run(lines)
+    design_notes = set()
     for (what, stream, case, inp, rec, meas), o in zip(meta, outs):
         A, mean, f, ph = case["A"], case["mean"], case["f"], case["ph"]
         sc = A + abs(mean)
         tol = TOL_IRR if case.get("variant") == "irregular" else TOL
         if what == "design":
             chk.count(stream + "design")
-            why = compare_design(o, rec)
+            why = compare_design(o, rec, design_notes)
             if why is not None:
                 chk.disagree(stream + "design", dict(inp, differs_in=why), o, jsonable(rec))
         elif what == "steady":
@@ -608,6 +619,8 @@ def run(chk):
             Gm = unfbits(tok[1]) if tok[0] == "ok" and len(tok) == 2 else float("nan")
             if not abs(Gm - meas["ref"]) <= 1e-9:
                 chk.disagree("spec", inp, Gm, meas["ref"])
+
+    chk.notes += sorted("design: " + n for n in design_notes)
 
     # ---- an observation that is reported but is not a clause of the property as quantified (float cut-offs) ---------------
     try:
